@@ -66,7 +66,7 @@ ASSUMPTIONS = [
 ]
 SHARDS = {"quick": 4, "thorough": 16}
 
-DTYPES = ["uint8", "int8", "uint16", "int16", "uint32", "int32", "float32", "float64"]
+DTYPES = ["uint8", "int8", "uint16", "int16", "uint32", "int32", "float32", "float64", "float16"]
 RESAMPLING = [None, "nearest", "nearest", "average", "bilinear", "cubic", "mode", "gauss", "lanczos", "cubic_spline"]
 DEFAULT_LEVELS = [2, 4, 8, 16, 32]
 
